@@ -171,7 +171,7 @@ def run(ctx):
                          dict(kind="trace", failure=f, how="bin/check %s --tier %s; event index 'at' in the recorded trace of run id" % (prop, ctx.tier)))
     KINDS = {
         "C01": {"result:bool", "result:string", "result:number", "error", "panic", "compile"},
-        "C02": {"calls", "prog", "compile", "panic"},
+        "C02": {"calls", "prog", "compile", "panic", "history"},
         "C03": {"variant-compile", "variant-prog", "variant-result", "prog", "compile"},
         "C05": {"fault-error", "fault-panic", "fault-accessor", "panic"},
     }[prop]
